@@ -363,13 +363,15 @@ func safeHint(f solver.Hint, q *big.Int, in, in2, out []*big.Int) (err error) {
 		}
 	}()
 	if failed {
+		// hints may be stateful closures (GKR): never call them a second time; the fault degrades
+		// to a failed answer
 		for i := range out {
 			if out[i] == nil {
 				out[i] = new(big.Int)
 			}
 			out[i].Set(saved[i])
 		}
-		return f(q, in, out)
+		return errNemesis
 	}
 	return nil
 }
@@ -484,7 +486,7 @@ func nemesisRun(w *Worker, tape *simrt.Tape, prop string, cases []*gcase, fields
 	if builder != 2 {
 		comp = compileCase(gc, f.Q, f.Small, builder)
 		if comp.err != nil {
-			if f.Small || gc.NeedsCommit {
+			if f.Small {
 				o.probe("case_not_compilable_here")
 				o.Desc = "skipped: " + comp.err.Error()
 				return o
